@@ -57,7 +57,9 @@ C03Labels(c) ==
   \* a pattern that has been matched, then edited where it is, is matched as what it is now (nothing about it is remembered)
   (IF "editSame" \in DOMAIN c /\ ~c.editSame THEN {"earlier-pattern-remembered"} ELSE {})
 
-Labels(c) == [c01 |-> C01Labels(c), c02 |-> C02Labels(c), c03 |-> C03Labels(c)]
+\* (C01, too: what is returned for the edited pattern has to fit IT)
+Edited(c) == IF "editSame" \in DOMAIN c /\ ~c.editSame THEN {"earlier-pattern-remembered"} ELSE {}
+Labels(c) == [c01 |-> C01Labels(c) \cup Edited(c), c02 |-> C02Labels(c), c03 |-> C03Labels(c)]
 
 NonTrivial(c) == \E i \in DOMAIN c.evals : c.evals[i].err = "" /\ c.evals[i].res # <<>>
 
